@@ -5,7 +5,7 @@ and compare with the expectation of each variant.
 
   selftest/run.py [C20 C08 ...] [-v]
 
-variants/<prop>.json: [{"name", "file", "old", "new", "expect": "<rule id>" | null, "count": 1}]
+variants/<prop>.json: [{"name", "file", "old", "new" (or "edits": [[old, new], ...]), "expect": "<rule id>" | null, "count": 1}]
   expect = rule id  -> the check must exit 1 and report that rule
   expect = null     -> behaviour-preserving variant: the check must exit 0
 Nothing here influences a property's verdict.
@@ -61,14 +61,18 @@ def main():
             for v in variants:
                 src = os.path.join(base, v["file"])
                 orig = open(src).read()
-                cnt = orig.count(v["old"])
-                if cnt != v.get("count", 1):
+                edits = v.get("edits") or [[v["old"], v["new"]]]     # "edits": several replacements in the same file
+                cnt = min(orig.count(o_) for o_, n_ in edits)
+                if any(orig.count(o_) != v.get("count", 1) for o_, n_ in edits):
                     print("  %-45s STALE (pattern occurs %d times)" % (v["name"], cnt))
                     fails += 1
                     total += 1
                     summary[prop]["variants"].append({"name": v["name"], "result": "stale"})
                     continue
-                open(src, "w").write(orig.replace(v["old"], v["new"]))
+                text = orig
+                for o_, n_ in edits:
+                    text = text.replace(o_, n_)
+                open(src, "w").write(text)
                 try:
                     rc, out = run_check(prop, base)
                 finally:
